@@ -168,7 +168,8 @@ def run(ck):
         ck.extra["systematic_schedules"] = len(sched)
         if not sched:
             raise vf.Infra("kvconc sched recorded no run")
-    stats = [h for h in rounds if "stat" in h]
+    hung = [h for h in out + sched if h.get("stat") == "hung"]
+    stats = [h for h in rounds if "stat" in h and h.get("stat") != "hung"]
     rounds = [h for h in rounds if "stat" not in h]
     if not recs:
         raise vf.Infra("kvconc recorded no history")
@@ -231,6 +232,11 @@ def run(ck):
         if hs:
             ck.sample({"backend": bk, "kind": hs[0]["kind"], "scripts": hs[0]["scripts"], "events": _brief(hs[0])[:12]}, cap=3)
             ck.extra["overlapping_" + bk] = sum(1 for h in hs if _overlap(h))
+    if hung and not ck.viol:
+        # a call that never returns is not a reply: judged are the histories completed before it; without a finding among them the run says nothing
+        raise vf.Infra("a call on the %s backend did not return within 20 s; the %d histories completed before it are legal" % (hung[0].get("backend"), len(sel)))
+    if hung:
+        ck.notes.append("a call on the %s backend never returned; the histories completed before it were judged" % hung[0].get("backend"))
     if ck.thorough and ck.replay is None:
         _race(ck)
     ck.rule = ("histories = 4 (every third: 3) goroutines x 3 calls on 2 fresh keys of one store per backend, themes simple (put/delete/get), "
